@@ -4,7 +4,7 @@
    (rules::valid_tag, valid_entity, valid_boolean_property, valid_property) and the three flags;
    the encoding validators enc_valid / enc_vof (cppcms::encoding::valid / validate_or_filter) are
    universally quantified functions constrained only by the stated premises. *)
-From CppcmsV Require Import Base.Tac Base.Sweep C04.Defs C04.DefsX C04.DefsU C04.ProofsX C04.ProofsU C04.Proofs1 C04.Proofs2 C04.Proofs3 C04.Proofs4 C04.Proofs5 C04.Proofs6 C04.Proofs7 C04.Proofs8 C04.Proofs9 C04.Proofs10 C04.Proofs11 C04.Link Base.CSem gen.Gen_xss gen.Gen_xss2.
+From CppcmsV Require Import Base.Tac Base.Sweep C04.Defs C04.DefsX C04.DefsU C04.ProofsX C04.ProofsU C04.Proofs1 C04.Proofs2 C04.Proofs3 C04.Proofs4 C04.Proofs5 C04.Proofs6 C04.Proofs7 C04.Proofs8 C04.Proofs9 C04.Proofs10 C04.Proofs11 C04.Link Base.CSem gen.Gen_xss gen.Gen_xss2 gen.Gen_uri.
 Local Open Scope N_scope.
 
 (* ---- 1. verdicts: both entry points agree, valid input is returned unchanged, validation implies
@@ -313,6 +313,19 @@ Print Assumptions src_code_point_test.
 Theorem src_value_entities : map (map Z.to_N) g_xss_value_entities = value_entities.
 Proof. exact link_value_entities. Qed.
 Print Assumptions src_value_entities.
+
+Theorem src_uri_leafs : forall b, b < 256 ->
+  g_uri_isdigit (sch b) = u_digit b /\ g_uri_isalpha (sch b) = u_alpha b /\ g_uri_ishex (sch b) = u_hex b /\
+  g_uri_unreserved (sch b) = negb (Nat.eqb (unreserved_len [b]) 0) /\
+  existsb (Z.eqb (Z.of_N b)) g_uri_subdelim_chars = negb (Nat.eqb (subdelim_len [b]) 0).
+Proof.
+  exact (fun b H => conj (link_uri_isdigit b H) (conj (link_uri_isalpha b H) (conj (link_uri_ishex b H)
+          (conj (link_uri_unreserved b H) (link_uri_subdelims b H))))).
+Qed.
+Print Assumptions src_uri_leafs.
+Theorem src_uri_subdelim_words : map (map Z.to_N) g_uri_subdelim_words = [amp_s; apos_s].
+Proof. exact link_uri_subdelim_words. Qed.
+Print Assumptions src_uri_subdelim_words.
 
 (* ---- non-vacuity: a concrete rule set (xhtml; tag a: paired with attribute href checked by functor 0,
         tag br: stand alone; entity nbsp), functor 0 = "does not start with j" ---- *)
